@@ -1088,6 +1088,19 @@ def oracle_services(case, rows, out, designed_names):
 
 
 # ------------------------------------------------------------------ the run
+def coq_eval(*a, **k):
+    """common.coq_eval, retried when a coqc shard dies without any message (killed on a loaded machine);
+    a real Coq error carries a message and is raised at once"""
+    for attempt in range(3):
+        try:
+            return common.coq_eval(*a, **k)
+        except RuntimeError as e:
+            body = str(e).split('\n', 1)[1].strip() if '\n' in str(e) else ''
+            if attempt == 2 or 'coqc failed' not in str(e) or body:
+                raise
+            time.sleep(5 + 10 * attempt)
+
+
 class Timer:
     def __init__(self):
         self.t = {}
@@ -1259,7 +1272,7 @@ def run(ctx):
         req_results = [drive_request(s, k % 2 == 0) for k, s in enumerate(req_rows)]
     # ---------------- model evaluation and comparison
     t0 = time.time()
-    lines = common.coq_eval('C20', 'Prelude Model.Sheet Run.C20', terms, per_file=12, prelude='From Coq Require Import QArith.')
+    lines = coq_eval('C20', 'Prelude Model.Sheet Run.C20', terms, per_file=12, prelude='From Coq Require Import QArith.')
     for (c, data, impl, exc), line in zip(meta, lines):
         if line.startswith('E:'):
             if impl is None:
@@ -1281,7 +1294,7 @@ def run(ctx):
     TM.add('coq_convert', t0)
     # services through read_service_sheet
     t0 = time.time()
-    lines = common.coq_eval('C20', 'Prelude Model.Sheet Run.C20', svc_terms, per_file=12, tag='svc',
+    lines = coq_eval('C20', 'Prelude Model.Sheet Run.C20', svc_terms, per_file=12, tag='svc',
                             prelude='From Coq Require Import QArith.')
     for (c, out, impl), line in zip(svc_meta, lines):
         if line.startswith('E:'):
@@ -1308,7 +1321,7 @@ def run(ctx):
     t0 = time.time()
     rterms = [f'req_case {equip_term()} {"true" if k % 2 == 0 else "false"} {listlit([req_row_term(s)])}'
               for k, s in enumerate(req_rows)]
-    lines = common.coq_eval('C20', 'Prelude Model.Sheet Run.C20', rterms, per_file=60, tag='req',
+    lines = coq_eval('C20', 'Prelude Model.Sheet Run.C20', rterms, per_file=60, tag='req',
                             prelude='From Coq Require Import QArith.')
     for s, res, line in zip(req_rows, req_results, lines):
         m = json.loads(line)[0]
